@@ -367,6 +367,8 @@ class PDFPageInterpreter:
     def __init__(self, rsrcmgr: PDFResourceManager, device: PDFDevice) -> None:
         self.rsrcmgr = rsrcmgr
         self.device = device
+        # the form XObjects being rendered, outermost first
+        self.active_forms: Tuple[object, ...] = ()
 
     def dup(self) -> "PDFPageInterpreter":
         return self.__class__(self.rsrcmgr, self.device)
@@ -1178,7 +1180,13 @@ class PDFPageInterpreter:
         log.debug("Processing xobj: %r", xobj)
         subtype = xobj.get("Subtype")
         if subtype is LITERAL_FORM and "BBox" in xobj:
+            form_key = xobj.objid if xobj.objid is not None else id(xobj)
+            if form_key in self.active_forms:
+                # a form that (indirectly) draws itself would never end
+                log.warning("Ignoring recursive form XObject: %r", xobjid)
+                return
             interpreter = self.dup()
+            interpreter.active_forms = self.active_forms + (form_key,)
             bbox = cast(Rect, list_value(xobj["BBox"]))
             matrix = cast(Matrix, list_value(xobj.get("Matrix", MATRIX_IDENTITY)))
             # According to PDF reference 1.7 section 4.9.1, XObjects in
